@@ -674,12 +674,20 @@ def replay(ctx, case):
     f = case.get("failing_input") or {}
     c = f.get("case") or {}
     if c.get("kind") == "registry":
+        bad = False
         for i, oid, known, o in run_registry(c["servertype"], [tuple(x) for x in c["steps"]]):
             print("step", i, "connect for", oid, "registered" if known else "NOT registered", "->", o["replies"], "execs", o["execs"], "closed", o["sockclosed"])
-        return 1
+            accepted = bool(o["replies"]) and o["replies"][0][0] == 2
+            bad = bad or (known != accepted) or (not known and (o["execs"] or o["sockclosed"] < 1))
+        print("VIOLATION reproduced" if bad else "not reproduced")
+        return 1 if bad else 0
     if c.get("kind") == "concurrent":
-        print(run_concurrent(c["first_ok"], c["how"]))
-        return 1
+        held, o0, o1 = run_concurrent(c["first_ok"], c["how"])
+        print("held:", held, "\nconnection 0:", o0, "\nconnection 1:", o1)
+        acc = lambda o: bool(o["replies"]) and o["replies"][0][0] == 2
+        bad = acc(o0) != c["first_ok"] or acc(o1) == c["first_ok"] or bool((o1 if c["first_ok"] else o0)["execs"])
+        print("VIOLATION reproduced" if bad else "not reproduced")
+        return 1 if bad else 0
     if "evs" not in c:
         print(json.dumps(case.get("no_longer_checks")))
         return 1
